@@ -106,7 +106,7 @@ static bool read_file(const char* path, std::string& out) { std::ifstream f(path
 int main(int argc, char** argv) {
 	std::string prop = "C01", replay, out_prefix = "/tmp/ffsm2-sim", dump;
 	uint64_t seed = 1; long from = 0, to = 1000; int max_ops = 24; bool all = false; int samples = 3; bool do_shrink = true; bool quiet = false;
-	bool in_contract = false, neutral = false; bool digests = false; std::string prop_seed, seed_name; bool ignore_log = false;
+	bool in_contract = false, neutral = false; bool digests = false; std::string prop_seed, seed_name, use; bool ignore_log = false;
 	for (int i = 1; i < argc; ++i) {
 		std::string a = argv[i];
 		#define NEXT (i + 1 < argc ? argv[++i] : "")
@@ -117,6 +117,7 @@ int main(int argc, char** argv) {
 		else if (a == "--out") out_prefix = NEXT; else if (a == "--no-shrink") do_shrink = false;
 		else if (a == "--quiet") quiet = true; else if (a == "--in-contract") in_contract = true;
 		else if (a == "--neutral") neutral = true; else if (a == "--digests") digests = true;
+		else if (a == "--use") use = NEXT;
 		else if (a == "--seed-name") seed_name = NEXT; else if (a == "--ignore-log") ignore_log = true;
 		else if (a == "--dump-case") dump = NEXT; else if (a == "--profile-prop") prop_seed = NEXT;
 		else if (a == "--info") { const SutInfo* s = sut_info(); printf("variant=%s N=%u L=%u C=%u inst_size=%u\n", s->variant, s->n_states, s->limit, s->capacity, s->inst_size); return 0; }
@@ -149,7 +150,7 @@ int main(int argc, char** argv) {
 		return e1.violations.empty() ? 0 : 1;
 	}
 
-	GenProfile prof; prof.prop = prop_seed.empty() ? prop : prop_seed; prof.max_ops = max_ops; prof.in_contract = in_contract; prof.neutral = neutral; prof.ignore_log = ignore_log;
+	GenProfile prof; prof.prop = prop_seed.empty() ? prop : prop_seed; prof.max_ops = max_ops; prof.in_contract = in_contract; prof.neutral = neutral; prof.ignore_log = ignore_log; prof.use = use;
 	const uint64_t vh = neutral ? 0 : !seed_name.empty() ? str_hash(seed_name.c_str()) : str_hash(g_info->variant), ph = str_hash(prof.prop.c_str());
 	std::set<uint64_t> distinct_runs, distinct_states; std::vector<std::string> sample_texts; std::map<std::string, uint64_t> other;
 	uint64_t nontrivial_runs = 0, violations = 0; int exit_code = 0;
